@@ -67,6 +67,7 @@ def setup(rep, tier):
     rep.minimum('R12.7', 10)
     rep.minimum('R12.8', 1)
     rep.minimum('R12.9', 3)
+    rep.minimum('R12.10', 10)
 
 
 # ------------------------------------------------------------------ helpers
@@ -1098,7 +1099,86 @@ def r12_9(rep, prog):
     return n
 
 
+# ------------------------------------------------------------------ R12.10
+def r12_10(rep, prog):
+    """the multistream objects are not cleared by their init functions, so every scalar field of the header must be
+    assigned on every successful path of every public init entry - otherwise it keeps whatever the memory held and the
+    packets depend on it.  For each entry the stores that lie on all of its success paths are collected, including those of
+    the shared worker it calls, evaluated under the constant arguments that entry passes (path feasibility)."""
+    n = 0
+    for rec in ('OpusMSEncoder', 'OpusMSDecoder'):
+        if rec not in prog.records:
+            continue
+        fields = [fl['name'] for fl in prog.record(rec)['fields'] if not fl.get('record') and '[' not in fl['type']]
+        entries = [f for f in prog.functions_all if not f.static and f.name.endswith('_init') and f.params and f.params[0]['type'].replace(' ', '').startswith(rec + '*')]
+        for e in entries:
+            rep.functions.add(e.name)
+
+            def must_written(f, val, depth=0):
+                cf = cfgm.CFG(f)
+                blocks, edges = decide.feasible_edges(cf, val, entry=True)
+                def failing(b, i, r_):
+                    if len(r_) > 1 and (sx.int_val(sx.strip(r_[1])) or 0) < 0:
+                        return True
+                    v = sx.strip(r_[1]) if len(r_) > 1 else None
+                    if v is not None and sx.kind(v) == 'local':
+                        # `if (ret != OPUS_OK) return ret;`
+                        return any(a[0] == '!=' and a[1] == sx.key(v) and a[2] == ('int', 0) for a in T.stable_facts(cf, b, i))
+                    return False
+                succ_rets = {b for b, i, r_ in T.returns_of(cf) if b in blocks and not failing(b, i, r_)}
+                if not succ_rets:
+                    return set()
+                out = set()
+                cand = {}
+                for b, i, s_ in cf.positions():
+                    if b not in blocks:
+                        continue
+                    for x in sx.walk(s_):
+                        if x[0] == 'assign':
+                            for lv in chain_assigns(x)[0]:
+                                if sx.kind(lv) == 'field' and lv[2] == rec:
+                                    cand.setdefault(lv[3], set()).add(b)
+                        if x[0] == 'call' and depth < 2:
+                            g = prog.resolve_in(f, sx.callee_name(x) or '')
+                            if g is not None and g.params and g.params[0]['type'].replace(' ', '').startswith(rec + '*') and g is not f:
+                                v2 = {}
+                                for j, a in enumerate(x[2][:len(g.params)]):
+                                    cv = decide.ev3(a, val)
+                                    if cv is not None:
+                                        v2[('param', j)] = cv
+                                for fld in must_written(g, v2, depth + 1):
+                                    cand.setdefault(fld, set()).add(b)
+                for fld, bs in cand.items():
+                    # every feasible path from the entry to a success return passes one of the blocks
+                    seen, work, skip = {cf.entry}, [cf.entry], False
+                    while work:
+                        x = work.pop()
+                        if x in bs:
+                            continue
+                        if x in succ_rets:
+                            skip = True
+                            break
+                        for y in cf.succ[x]:
+                            if (x, y) in edges and y not in seen:
+                                seen.add(y)
+                                work.append(y)
+                    if not skip:
+                        out.add(fld)
+                return out
+            mw = must_written(e, {})
+            for fld in fields:
+                n += 1
+                inst = '%s:%s assigns %s.%s on every successful path' % (prog.config, e.name, rec, fld)
+                if fld in mw:
+                    rep.holds('R12.10', inst, e.where(), None)
+                else:
+                    rep.violated('R12.10', inst, e.where(), 'some successful path leaves %s.%s unassigned (the object is not cleared first): it keeps whatever the memory held, and the encoder\'s output depends on it' % (rec, fld),
+                                 key='%s:%s:uninit' % (e.name, fld))
+    return n
+
+
 def check(rep, prog, tier):
+    r12_10(rep, prog)
     r12_9(rep, prog)
     r12_8(rep, prog)
     r12_1(rep, prog, tier)
